@@ -9,6 +9,7 @@
 From Coq Require Import List Arith Bool ZArith Permutation Sorted.
 From ORatio Require Import smt.SatCoreBase smt.SatCoreSpec smt.SatCore smt.Rup
   proofs.SatCoreInv_Proofs proofs.SatCoreRun_Proofs proofs.SatCoreLog_Proofs proofs.SatCoreThm_Proofs proofs.SatCoreDb_Proofs proofs.SatCoreNoUb_Proofs proofs.SatCoreWl_Proofs proofs.SatCoreWlRun_Proofs proofs.SatCoreWlThm_Proofs proofs.SatCoreWlEx_Proofs proofs.Rup_Proofs.
+From ORatio Require Import proofs.SatCoreGuard_Proofs.
 Import ListNotations.
 
 (* (i) every value reported is a consequence of the axioms, the theory and the standing decisions *)
@@ -349,3 +350,133 @@ Example C07_the_probe_theory_records_a_lemma_and_reports_a_conflict :
   In (2, [(2, true); (1, false)]) (log s) /\ In (3, [(3, false); (1, false)]) (log s) /\
   In (0, [(1, false); (3, false)]) (log s) /\ value_lit s (1, true) = LF /\ decision_level s = 1 /\ ub s = false.
 Proof. exact probe_records_a_lemma_and_reports_a_conflict. Qed.
+
+(* ---------------------------------------------------------------------------------------------- *)
+(* THE CONTRACT RELATIVE TO A THEORY INVARIANT (proofs/SatCoreGuard_Proofs.v).  theory_contract asks lemma_ok / cnfl_ok for every
+   sat state with Inv, whatever its theory state is; a theory with a real state cannot meet that.  A theory owner obtains a
+   non-partial instance by proving, for his raw functions thp / thc / thpush / thpop, an invariant K of the theory state and
+   decidable tests gp / gc between theory state and call arguments of his choice:
+     (P1-P4) K preserved by thp under gp, thc under gc, thpush, thpop;
+     (V1)    lemma_ok / cnfl_ok (th_result_ok) of thp's lemmas and conflict at every sat state s over the theory-state type
+             { ts | K ts } with Inv T s, p on the trail at the current level, gp (state) (assigns s) (level) p = true;
+     (V2)    the same for thc under gc, and thc records no lemma;
+   the GUARDED theory w_thp / w_thc / w_thpush / w_thpop (answers like the raw one when the test succeeds, says nothing
+   otherwise; its state carries K by typing) then meets the ABSOLUTE contract, and every theorem of this file applies to
+   the network sat_core + guarded theory.  Not proved: that on reachable states the tests always succeed (guarded = raw);
+   see the header of proofs/SatCoreGuard_Proofs.v for why that joint invariant was not threaded through the Inv development. *)
+(* (V1), (V2) => theory_contract for the guarded theory *)
+Theorem C07_contract_relative_to_a_theory_invariant_gives_the_contract :
+  forall (TS : Type) (T : SatCoreBase.asg -> Prop)
+           (thp : TS -> list SatCoreBase.lbool -> nat -> SatCoreBase.lit -> TS * list (list SatCoreBase.lit) * option (list SatCoreBase.lit))
+           (thc : TS -> list SatCoreBase.lbool -> nat -> TS * list (list SatCoreBase.lit) * option (list SatCoreBase.lit)) (K : TS -> Prop)
+           (gp : TS -> list SatCoreBase.lbool -> nat -> SatCoreBase.lit -> bool) (gc : TS -> list SatCoreBase.lbool -> nat -> bool)
+           (K_p : forall (ts : TS) (a : list SatCoreBase.lbool) (dl : nat) (p : SatCoreBase.lit), K ts -> gp ts a dl p = true -> K (fst (fst (thp ts a dl p))))
+           (K_c : forall (ts : TS) (a : list SatCoreBase.lbool) (dl : nat), K ts -> gc ts a dl = true -> K (fst (fst (thc ts a dl)))),
+         (forall (s : @SatCore.state {ts : TS | K ts}) (p : SatCoreBase.lit),
+          SatCoreInv_Proofs.Inv T s ->
+          List.In p (SatCore.trail s) ->
+          SatCoreAnalyze_Proofs.lvl s p = SatCore.decision_level s ->
+          gp (proj1_sig (SatCore.thst s)) (SatCore.assigns s) (SatCore.decision_level s) p = true ->
+          SatCoreRun_Proofs.th_result_ok T s
+            (SatCore.thst s, snd (fst (thp (proj1_sig (SatCore.thst s)) (SatCore.assigns s) (SatCore.decision_level s) p)),
+             snd (thp (proj1_sig (SatCore.thst s)) (SatCore.assigns s) (SatCore.decision_level s) p))) ->
+         (forall s : @SatCore.state {ts : TS | K ts},
+          SatCoreInv_Proofs.Inv T s ->
+          gc (proj1_sig (SatCore.thst s)) (SatCore.assigns s) (SatCore.decision_level s) = true ->
+          SatCoreRun_Proofs.th_result_ok T s
+            (SatCore.thst s, snd (fst (thc (proj1_sig (SatCore.thst s)) (SatCore.assigns s) (SatCore.decision_level s))),
+             snd (thc (proj1_sig (SatCore.thst s)) (SatCore.assigns s) (SatCore.decision_level s))) /\
+          snd (fst (thc (proj1_sig (SatCore.thst s)) (SatCore.assigns s) (SatCore.decision_level s))) = nil) ->
+         SatCoreThm_Proofs.theory_contract T (w_thp thp K gp K_p) (w_thc thc K gc K_c).
+Proof. exact @w_contract. Qed.
+Print Assumptions C07_contract_relative_to_a_theory_invariant_gives_the_contract.
+(* values, reasons and learnt clauses are entailed, for the network sat_core + guarded theory *)
+Theorem C07_soundness_core_under_the_relative_contract :
+  forall (TS : Type) (T : SatCoreBase.asg -> Prop)
+           (thp : TS -> list SatCoreBase.lbool -> nat -> SatCoreBase.lit -> TS * list (list SatCoreBase.lit) * option (list SatCoreBase.lit))
+           (thc : TS -> list SatCoreBase.lbool -> nat -> TS * list (list SatCoreBase.lit) * option (list SatCoreBase.lit)) (thpush thpop : TS -> TS)
+           (K : TS -> Prop) (gp : TS -> list SatCoreBase.lbool -> nat -> SatCoreBase.lit -> bool) (gc : TS -> list SatCoreBase.lbool -> nat -> bool)
+           (K_p : forall (ts : TS) (a : list SatCoreBase.lbool) (dl : nat) (p : SatCoreBase.lit), K ts -> gp ts a dl p = true -> K (fst (fst (thp ts a dl p))))
+           (K_c : forall (ts : TS) (a : list SatCoreBase.lbool) (dl : nat), K ts -> gc ts a dl = true -> K (fst (fst (thc ts a dl))))
+           (K_push : forall ts : TS, K ts -> K (thpush ts)) (K_pop : forall ts : TS, K ts -> K (thpop ts)),
+         (forall (s : @SatCore.state {ts : TS | K ts}) (p : SatCoreBase.lit),
+          SatCoreInv_Proofs.Inv T s ->
+          List.In p (SatCore.trail s) ->
+          SatCoreAnalyze_Proofs.lvl s p = SatCore.decision_level s ->
+          gp (proj1_sig (SatCore.thst s)) (SatCore.assigns s) (SatCore.decision_level s) p = true ->
+          SatCoreRun_Proofs.th_result_ok T s
+            (SatCore.thst s, snd (fst (thp (proj1_sig (SatCore.thst s)) (SatCore.assigns s) (SatCore.decision_level s) p)),
+             snd (thp (proj1_sig (SatCore.thst s)) (SatCore.assigns s) (SatCore.decision_level s) p))) ->
+         (forall s : @SatCore.state {ts : TS | K ts},
+          SatCoreInv_Proofs.Inv T s ->
+          gc (proj1_sig (SatCore.thst s)) (SatCore.assigns s) (SatCore.decision_level s) = true ->
+          SatCoreRun_Proofs.th_result_ok T s
+            (SatCore.thst s, snd (fst (thc (proj1_sig (SatCore.thst s)) (SatCore.assigns s) (SatCore.decision_level s))),
+             snd (thc (proj1_sig (SatCore.thst s)) (SatCore.assigns s) (SatCore.decision_level s))) /\
+          snd (fst (thc (proj1_sig (SatCore.thst s)) (SatCore.assigns s) (SatCore.decision_level s))) = nil) ->
+         forall sort : (SatCoreBase.lit -> SatCoreBase.lit -> bool) -> list SatCoreBase.lit -> list SatCoreBase.lit,
+         SatCoreThm_Proofs.sort_contract sort ->
+         forall (FUEL : nat) (ops : list SatCore.op) (w0 : WS K),
+         SatCore.run_ok sort (w_thp thp K gp K_p) (w_thc thc K gc K_c) (w_thpush thpush K K_push) (w_thpop thpop K K_pop) FUEL ops (SatCore.init w0) = true ->
+         SatCore.ub (SatCore.run sort (w_thp thp K gp K_p) (w_thc thc K gc K_c) (w_thpush thpush K K_push) (w_thpop thpop K K_pop) FUEL ops (SatCore.init w0)) =
+         false ->
+         let s := SatCore.run sort (w_thp thp K gp K_p) (w_thc thc K gc K_c) (w_thpush thpush K K_push) (w_thpop thpop K K_pop) FUEL ops (SatCore.init w0) in
+         SatCoreInv_Proofs.Inv T s /\
+         (forall p : SatCoreBase.lit,
+          SatCore.value_lit s p = SatCoreBase.LT ->
+          SatCoreBase.entails T (SatCoreSpec.axioms (SatCore.log s) ++ SatCoreBase.units (SatCore.decisions s)) (p :: nil)%list) /\
+         (forall p : SatCoreBase.lit,
+          SatCore.value_lit s p = SatCoreBase.LF ->
+          SatCoreBase.entails T (SatCoreSpec.axioms (SatCore.log s) ++ SatCoreBase.units (SatCore.decisions s)) (SatCoreBase.lneg p :: nil)%list) /\
+         (forall (pre : list SatCoreBase.lit) (q : SatCoreBase.lit) (suf : list SatCoreBase.lit) (c : nat),
+          SatCore.trail s = (pre ++ q :: suf)%list ->
+          List.nth (fst q) (SatCore.reason s) None = Some c ->
+          exists rest : list SatCoreBase.lit,
+            SatCore.lits_of s c = (q :: rest)%list /\
+            (forall r : SatCoreBase.lit, List.In r rest -> List.In (SatCoreBase.lneg r) suf \/ r = SatCoreBase.FALSE_lit) /\
+            SatCoreBase.entails T (SatCoreSpec.axioms (SatCore.log s)) (SatCore.lits_of s c)) /\
+         (forall (post : list (nat * list SatCoreBase.lit)) (c : list SatCoreBase.lit) (pre : list (nat * list SatCoreBase.lit)),
+          SatCore.log s = (post ++ (0, c) :: pre)%list -> SatCoreBase.entails T (SatCoreSpec.axioms pre) c).
+Proof. exact @w_soundness_core. Qed.
+Print Assumptions C07_soundness_core_under_the_relative_contract.
+(* no undefined behaviour when the lemmas also meet lemmas_wl_ok under the same premises (the ub premise above is then redundant) *)
+Theorem C07_no_undefined_behaviour_under_the_relative_contract :
+  forall (TS : Type) (T : SatCoreBase.asg -> Prop)
+           (thp : TS -> list SatCoreBase.lbool -> nat -> SatCoreBase.lit -> TS * list (list SatCoreBase.lit) * option (list SatCoreBase.lit))
+           (thc : TS -> list SatCoreBase.lbool -> nat -> TS * list (list SatCoreBase.lit) * option (list SatCoreBase.lit)) (thpush thpop : TS -> TS)
+           (K : TS -> Prop) (gp : TS -> list SatCoreBase.lbool -> nat -> SatCoreBase.lit -> bool) (gc : TS -> list SatCoreBase.lbool -> nat -> bool)
+           (K_p : forall (ts : TS) (a : list SatCoreBase.lbool) (dl : nat) (p : SatCoreBase.lit), K ts -> gp ts a dl p = true -> K (fst (fst (thp ts a dl p))))
+           (K_c : forall (ts : TS) (a : list SatCoreBase.lbool) (dl : nat), K ts -> gc ts a dl = true -> K (fst (fst (thc ts a dl))))
+           (K_push : forall ts : TS, K ts -> K (thpush ts)) (K_pop : forall ts : TS, K ts -> K (thpop ts)),
+         (forall (s : @SatCore.state {ts : TS | K ts}) (p : SatCoreBase.lit),
+          SatCoreInv_Proofs.Inv T s ->
+          List.In p (SatCore.trail s) ->
+          SatCoreAnalyze_Proofs.lvl s p = SatCore.decision_level s ->
+          gp (proj1_sig (SatCore.thst s)) (SatCore.assigns s) (SatCore.decision_level s) p = true ->
+          SatCoreRun_Proofs.th_result_ok T s
+            (SatCore.thst s, snd (fst (thp (proj1_sig (SatCore.thst s)) (SatCore.assigns s) (SatCore.decision_level s) p)),
+             snd (thp (proj1_sig (SatCore.thst s)) (SatCore.assigns s) (SatCore.decision_level s) p))) ->
+         (forall s : @SatCore.state {ts : TS | K ts},
+          SatCoreInv_Proofs.Inv T s ->
+          gc (proj1_sig (SatCore.thst s)) (SatCore.assigns s) (SatCore.decision_level s) = true ->
+          SatCoreRun_Proofs.th_result_ok T s
+            (SatCore.thst s, snd (fst (thc (proj1_sig (SatCore.thst s)) (SatCore.assigns s) (SatCore.decision_level s))),
+             snd (thc (proj1_sig (SatCore.thst s)) (SatCore.assigns s) (SatCore.decision_level s))) /\
+          snd (fst (thc (proj1_sig (SatCore.thst s)) (SatCore.assigns s) (SatCore.decision_level s))) = nil) ->
+         forall sort : (SatCoreBase.lit -> SatCoreBase.lit -> bool) -> list SatCoreBase.lit -> list SatCoreBase.lit,
+         SatCoreThm_Proofs.sort_contract sort ->
+         forall FUEL : nat,
+         (forall (key : SatCoreBase.lit -> nat) (l : list SatCoreBase.lit),
+          Sorted.StronglySorted (fun a b : SatCoreBase.lit => key b <= key a) (sort (fun a b : SatCoreBase.lit => PeanoNat.Nat.ltb (key b) (key a)) l)) ->
+         (forall (s : @SatCore.state {ts : TS | K ts}) (p : SatCoreBase.lit),
+          SatCoreInv_Proofs.Inv T s ->
+          List.In p (SatCore.trail s) ->
+          List.nth (fst p) (SatCore.level s) 0 = SatCore.decision_level s ->
+          gp (proj1_sig (SatCore.thst s)) (SatCore.assigns s) (SatCore.decision_level s) p = true ->
+          SatCoreWlRun_Proofs.lemmas_wl_ok s (snd (fst (thp (proj1_sig (SatCore.thst s)) (SatCore.assigns s) (SatCore.decision_level s) p)))) ->
+         forall (ops : list SatCore.op) (w0 : WS K),
+         SatCore.run_ok sort (w_thp thp K gp K_p) (w_thc thc K gc K_c) (w_thpush thpush K K_push) (w_thpop thpop K K_pop) FUEL ops (SatCore.init w0) = true ->
+         SatCore.ub (SatCore.run sort (w_thp thp K gp K_p) (w_thc thc K gc K_c) (w_thpush thpush K K_push) (w_thpop thpop K K_pop) FUEL ops (SatCore.init w0)) =
+         false.
+Proof. exact @w_no_ub. Qed.
+Print Assumptions C07_no_undefined_behaviour_under_the_relative_contract.
